@@ -122,6 +122,7 @@ func aliasesFor(old, cur NameTable) map[string]string {
 }
 
 type UnitResult struct {
+	Relaxed  []string // heap keys whose loop frames were relaxed (second pass, see cmd)
 	Names    NameTable
 	Unit     string
 	Contract *Contract
